@@ -38,12 +38,12 @@ fuzz_target!(|data: &[u8]| {
             let lits = vinproc::string_literals(&tokens);
             let want = model::case(&ident, style);
             if lits.len() != 1 || lits[0] != want {
-                eprintln!("C07-VIOLATION ident={:?} style={:?} expected={:?} actual={:?}", ident, style, want, lits);
+                eprintln!("C07-VIOLATION {{\"kind\":\"case:{}\",\"input\":{{\"ident\":{:?},\"style\":{:?}}},\"expected\":{:?},\"actual\":{:?}}}", style.unwrap_or("none"), ident, style.unwrap_or(""), want, format!("{:?}", lits));
                 std::process::abort();
             }
         }
         other => {
-            eprintln!("C07-VIOLATION ident={:?} style={:?} expansion failed: {:?}", ident, style, other);
+            eprintln!("C07-VIOLATION {{\"kind\":\"case:expansion-failed\",\"input\":{{\"ident\":{:?}}},\"actual\":{:?}}}", ident, format!("{:?}", other));
             std::process::abort();
         }
     }
